@@ -88,7 +88,7 @@ SliceS ==
   \cup {Src("string", <<ValB(<<V("len_char_min", p[1], s1), V("len_char_max", p[2], s2)>>)>>, AllFeats) : p \in Pos, s1 \in {"lit", "expr"}, s2 \in {"lit", "expr"}}
   \cup {Src("string", <<ValB(<<V(a, 1, "lit"), V(b, 1, "lit")>>)>>, AllFeats) : a \in {"not_empty", "len_char_min", "NotEmpty", "finite", "greater"}, b \in {"not_empty", "len_char_max"}}
   \cup {Src(fam, <<ValB(<<V(a, 1, "lit")>>)>>, AllFeats) : fam \in {"int", "float", "any"}, a \in {"not_empty", "len_char_max", "finite", "greater", "Greater", "max"}}
-  \cup {Src("string", <<ValB(<<VF("regex", fn, sp)>>)>>, feats) : fn \in {"re_lower", "re_invalid"}, sp \in {"lit", "expr"}, feats \in {AllFeats, AllFeats \ {"regex"}}}
+  \cup {Src("string", <<ValB(<<VF("regex", fn, sp)>>)>>, feats) : fn \in {"re_lower", "re_invalid", "re_toobig"}, sp \in {"lit", "expr"}, feats \in {AllFeats, AllFeats \ {"regex"}}}
 
 \* ---- slice F: feature-gated items with and without their feature
 SliceF ==
@@ -143,6 +143,9 @@ SliceR ==
 \* ---- slice G: what only the generated unit tests can catch: expression bounds, default values
 SliceG ==
   {Src(fam, <<ValB(<<V(lk, p[1], "expr"), V(uk, p[2], "expr")>>)>>, AllFeats) :
+     fam \in {"int", "float"}, lk \in LowerKinds, uk \in UpperKinds, p \in Pos}
+  \* the same with bounds that END IN A CAST (`K1 as i32`): spliced into `assert!(upper > lower)` they must still parse
+  \cup {Src(fam, <<ValB(<<V(lk, p[1], "cast"), V(uk, p[2], "cast")>>)>>, AllFeats) :
      fam \in {"int", "float"}, lk \in LowerKinds, uk \in UpperKinds, p \in Pos}
   \cup {Src("string", <<ValB(<<V("len_char_min", p[1], "expr"), V("len_char_max", p[2], "expr")>>)>>, AllFeats) : p \in Pos}
   \cup UNION {{Src(fam, ValOf(fam, vk) \o <<DerB(<<"Debug", "Default">>), DflB(x)>>, AllFeats) : vk \in VKinds(fam) \ {"finite"}, x \in {"valid", "invalid"}} : fam \in Families}
